@@ -85,8 +85,15 @@ def gen_string_case(rng, tier, i, classes=CLASSES, max_len=None, want_prefix_fla
     elif cls == "tie_costs":
         a, b = rng.choice([0.25, 0.5, 1.0, 1.5]), rng.choice([0.25, 0.5, 1.0, 1.5])
         costs = [a, b, a + b] if rng.random() < 0.6 else [a, b, rng.choice([a + b + 0.5, 3.0])]
+        if max(R, H) <= 12 and rng.random() < 0.35:
+            # a hair off the tie (still exactly representable, and all sums of <= 24 of them too): the
+            # cheaper alignment is strictly cheaper, by about one part in 10^5
+            costs = [a, b, a + b + rng.choice([-1, 1]) * 2.0 ** -16]
     else:
         costs = [rng.choice(DYADIC) for _ in range(3)]
+        if cls == "unequal_costs" and rng.random() < 0.25:
+            # clearly different costs that are all tiny in absolute terms (exact powers of two times the above)
+            costs = [c * 2.0 ** -18 for c in costs]
     case = {
         "class": cls, "ref": refs, "hyp": hyps, "eos": eos,
         "include_eos": include_eos, "norm": rng.random() < 0.5,
@@ -98,7 +105,14 @@ def gen_string_case(rng, tier, i, classes=CLASSES, max_len=None, want_prefix_fla
 
 
 def is_dyadic(costs):
-    return all(Fraction(c).denominator in (1, 2, 4) for c in costs)
+    """costs whose sums over <= ~36 edits are exact in float32: a power-of-two denominator and a numerator of
+    at most 18 bits (the generator's near-tie and tiny costs included)"""
+    ok = True
+    for c in costs:
+        f = Fraction(c)
+        d = f.denominator
+        ok = ok and (d & (d - 1)) == 0 and f.numerator < 2 ** 18
+    return ok
 
 
 LAYOUTS = ["contiguous", "transposed_storage", "offset_view", "strided_view"]
